@@ -65,6 +65,10 @@ let results_equiv (pi : peer) (pm : peer) (impl : res list) (model : res list) :
         d1 = d2 && List.length b1 = List.length b2 &&
         (match peer_feed pi b1, peer_feed pm b2 with
          | Some m1, Some m2 -> List.map canon_msg m1 = List.map canon_msg m2
+         | None, None ->
+           (* both outbound streams are already undecodable for a peer (a call failed after serializing a packet,
+              known finding K2): compare as byte multisets with equal first byte (AMF0 property order only) *)
+           List.hd b1 = List.hd b2 && List.sort compare (List.map int_of_n b1) = List.sort compare (List.map int_of_n b2)
          | _ -> false)
     | _ -> false) impl model
 
@@ -79,3 +83,78 @@ let decodable (packets : (bool * BinNums.coq_N list) list) (keep : int -> bool -
     else match peer_feed p b with
       | Some [m] -> well_formed_msg m
       | _ -> false) packets
+
+(* ---------------------------------------------------------------- C17 oracle (independent of the session models)
+   Recomputes from the script alone - call sizes, and the calls in which a Window Acknowledgement Size message
+   of the peer completes (found with the spec decoder) - in which calls an Acknowledgement is due and with which
+   value, and compares with the packets the real session returned. *)
+type inbound = { mutable ist : ChunkSpec.sdec_state; mutable buf : BinNums.coq_N list; mutable broken : bool }
+
+let inbound_feed (p : inbound) (piece : BinNums.coq_N list) : Chunk.msg list =
+  p.buf <- p.buf @ piece;
+  let out = ref [] in
+  let continue = ref (not p.broken) in
+  while !continue do
+    match p.buf with
+    | [] -> continue := false
+    | _ ->
+      (match ChunkSpec.parse_chunk p.ist p.buf with
+       | ChunkSpec.PNeedMore -> continue := false
+       | ChunkSpec.PBad -> p.broken <- true; continue := false
+       | ChunkSpec.PChunk (c, rest) ->
+         (match ChunkSpec.dec_chunk p.ist c with
+          | None -> p.broken <- true; continue := false
+          | Some (st1, None) -> p.ist <- st1; p.buf <- rest
+          | Some (st1, Some m) ->
+            out := m :: !out; p.buf <- rest;
+            (match ChunkSpec.apply_control st1 m with
+             | Some st2 -> p.ist <- st2
+             | None -> p.ist <- st1; p.broken <- true; continue := false)))
+  done;
+  List.rev !out
+
+let be32_of (l : BinNums.coq_N list) : int option =
+  match l with a :: b :: c :: d :: _ -> Some ((int_of_n a lsl 24) lor (int_of_n b lsl 16) lor (int_of_n c lsl 8) lor int_of_n d) | _ -> None
+
+(* ops: the script; impl: per op, per call, the real results. Returns None when the script is outside the
+   oracle's domain (a call failed, or the peer stream is not a clean chunk stream) *)
+let ack_oracle (ops : string list) (impl : res list list list) : bool option =
+  let pin = { ist = ChunkSpec.sdec_init; buf = []; broken = false } in
+  let pout = new_peer () in
+  let window = ref None and since = ref 0 in
+  let ok = ref true and in_domain = ref true in
+  (try
+    List.iter2 (fun op calls ->
+      let t = List.filter (fun s -> s <> "") (String.split_on_char ' ' op) in
+      match t with
+      | ["in"; _; part; h] ->
+        let pieces = partition part (bytes_of_hex h) in
+        if List.length pieces <> List.length calls then in_domain := false
+        else List.iter2 (fun piece results ->
+          if List.exists (function Other s -> String.length s >= 4 && String.sub s 0 4 = "ERR:" | _ -> false) results then in_domain := false;
+          let expected = (match !window with
+              | None -> None
+              | Some w ->
+                since := min (!since + List.length piece) 0xFFFFFFFF;
+                if !since >= w then begin let v = !since in since := 0; Some v end else None) in
+          (* which of the returned packets are acknowledgements *)
+          let acks = List.filter_map (function
+              | Pkt (_, b) -> (match peer_feed pout b with
+                  | Some [m] when int_of_n m.Chunk.m_tid = 3 -> be32_of m.Chunk.m_data
+                  | Some _ -> None
+                  | None -> in_domain := false; None)
+              | Other _ -> None) results in
+          let first_is_ack = (match results with Pkt (_, _) :: _ -> (match acks with _ :: _ -> true | [] -> false) | _ -> false) in
+          (match expected, acks with
+           | None, [] -> ()
+           | Some v, [a] -> if a <> v || not first_is_ack then ok := false
+           | _ -> ok := false);
+          List.iter (fun m -> if int_of_n m.Chunk.m_tid = 5 then (match be32_of m.Chunk.m_data with Some w -> window := Some w | None -> ()))
+            (inbound_feed pin piece);
+          if pin.broken then in_domain := false) pieces calls
+      | _ ->
+        (* application calls: their packets advance the outbound decoder *)
+        List.iter (fun results -> List.iter (function Pkt (_, b) -> ignore (peer_feed pout b) | Other s ->
+            if String.length s >= 4 && String.sub s 0 4 = "ERR:" then in_domain := false) results) calls) ops impl
+  with Invalid_argument _ -> in_domain := false);
+  if !in_domain then Some !ok else None
